@@ -357,3 +357,6 @@ class GHE(BaseGHE):
         )
 
         self.bhe.b.H = returned_height
+        # solve_root can return a bound (or an earlier iterate) without having evaluated the objective
+        # there last; simulate once more so the stored temperatures describe the returned height
+        self.simulate(method=method)
